@@ -2,3 +2,5 @@ import BalmProofs.Props.C06
 #print axioms Balm.ldoi_sound
 #print axioms Balm.trap_override
 #print axioms Balm.attr_const
+#print axioms Balm.Impl.inAttrB_iff
+#print axioms Balm.Impl.mem_reachSet
